@@ -190,6 +190,11 @@ func (r *Report) Finish(verifDir string, explanation string, notDecided []string
 	var nViol, nKnown, nDis, nNon int
 	rules := map[string]bool{}
 	var lines []string
+	if os.Getenv("JSCHECK_DUMP") != "" {
+		for _, o := range r.Obs {
+			fmt.Printf("OBLIGATION %s %s %s %v: %s\n", o.Rule, o.Pos, o.Construct, o.Status, o.Msg)
+		}
+	}
 	for _, o := range r.Obs {
 		rules[o.Rule] = true
 		if o.NonTrivial {
